@@ -291,6 +291,14 @@ Expand(s) ==
                                AbsP(<<Dos, Step("child", AnyT, <<Bin("=", Fn1("count", Rel(<<Self, Dos, Self>>)), NumL(2))>>)>>),
                                AbsP(<<Dos, Step("child", AnyT, <<Rel(<<Ch("b"), Dos, Self, Step("child", TypeT("text"), <<>>)>>)>>)>>),
                                AbsP(<<Ch("a"), Dos, Self>>), AbsP(<<Ch("a"), Dos, Self, Ch("c")>>) }
+                        \* an INNER // followed by a child step with a positional predicate: x//t[1] is the first t child of
+                        \* every node below x (x/descendant-or-self::node()/child::t[1]), not the first t descendant
+                        \cup { AbsP(<<Ch("a"), Dos, Step("child", t, <<p>>)>>) :
+                                 t \in {NameT("b"), AnyT, TypeT("node"), TypeT("text")},
+                                 p \in {NumL(1), NumL(2), Fn0("last"), Bin("=", Fn0("position"), NumL(2))} }
+                        \cup { Rel(<<Ch("a"), Dos, Step("child", AnyT, <<NumL(1)>>)>>),
+                               Fn1("count", AbsP(<<Ch("a"), Ch("b"), Dos, Step("child", TypeT("node"), <<NumL(1)>>)>>)),
+                               AbsP(<<Dos, Step("child", AnyT, <<Rel(<<Self, Dos, Step("child", AnyT, <<NumL(2)>>)>>)>>)>>) }
     [] s.fam = "ns" ->
          LET T == { [k |-> "name", pre |-> pr, loc |-> Cp(n)] : pr \in {<<>>, Cp("r"), Cp("p"), Cp("q")}, n \in {"b", "x", "c"} }
                   \cup { [k |-> "nsany", pre |-> pr] : pr \in {Cp("r"), Cp("p"), Cp("q")} } \cup {AnyT}
